@@ -118,6 +118,10 @@ type fecDecoder struct {
 	// record the latest recovered shard id
 	// the shards smaller than this one will be discarded
 	newestShardId uint32
+	// newestValid is false until a packet has been seen under the current
+	// parameters: shard ids only compare within one group size, and the id
+	// space has no origin a fresh decoder could assume
+	newestValid bool
 
 	// caches
 	decodeCache [][]byte
@@ -202,6 +206,7 @@ func (dec *fecDecoder) decode(in fecPacket) (recovered [][]byte) {
 					}
 				}
 				dec.shardSet = make(map[uint32]*shardHeap) // empty the shard set
+				dec.newestValid = false                    // shard ids change scale with the group size
 				codec, err := reedsolomon.New(autoDS, autoPS)
 				if err != nil {
 					return nil
@@ -317,8 +322,9 @@ func (dec *fecDecoder) decode(in fecPacket) (recovered [][]byte) {
 	}
 
 	// update the newest shard id
-	if _itimediff(shardId*uint32(dec.shardSize), dec.newestShardId*uint32(dec.shardSize)) > 0 {
+	if !dec.newestValid || _itimediff(shardId*uint32(dec.shardSize), dec.newestShardId*uint32(dec.shardSize)) > 0 {
 		dec.newestShardId = shardId
+		dec.newestValid = true
 		atomic.StoreUint64(&DefaultSnmp.FECShardMin, uint64(dec.newestShardId))
 	}
 
